@@ -1,6 +1,7 @@
 """Action to support jsonschemas."""
 
 import os
+from copy import deepcopy
 from typing import Dict, Optional, Union
 
 from ._actions import _is_action_value_list
@@ -109,8 +110,10 @@ class ActionJsonSchema(Action):
                 yield validation
             if valid:
                 for prop, subschema in properties.items():
-                    if "default" in subschema:
-                        instance.setdefault(prop, subschema["default"])
+                    if "default" in subschema and prop not in instance:
+                        # a copy: the value must not share lists or dicts with the schema, whose defaults every
+                        # later validation fills in
+                        instance[prop] = deepcopy(subschema["default"])
 
         jsonschema = import_jsonschema("ActionJsonSchema")[0]
         return jsonschema.validators.extend(validator_class, {"properties": set_defaults})
